@@ -218,7 +218,7 @@ def run(ck, m):
     runw = m.get(U, "_process_run_wrapper")
     rets = [s for s in runw.body if isinstance(s, ast.Return)]
     for lk, src in (("_tty_lock", "self._tty_lock"), ("_cell_size_cache", "self._cell_size_cache")):
-        sts = [st for t, st in stores_in(ast.Module(body=runw.body, type_ignores=[])) if isinstance(t, ast.Name) and t.id == lk and norm(st.value) == src]
+        sts = [st for t, st in stores_in(ast.Module(body=runw.body, type_ignores=[])) if isinstance(t, ast.Name) and t.id == lk and norm(trace(runw, st.value, use=st)) == src]
         ok = bool(sts) and bool(rets) and all(s.lineno < rets[-1].lineno for s in sts)
         ck.ob("L4", runw, ok, f"_process_run_wrapper must install `{lk} = {src}` before calling the wrapped run()", stmt=f"_process_run_wrapper: install {lk}")
     has_global = {"_tty_lock", "_cell_size_cache", "_cell_size_lock"} <= {nm for g_ in body_walk(runw) if isinstance(g_, ast.Global) for nm in g_.names}
